@@ -10,6 +10,7 @@ import (
 	"os"
 	"path"
 	"path/filepath"
+	"runtime"
 	"runtime/debug"
 	"sort"
 	"strings"
@@ -363,7 +364,9 @@ func consume(p *Pipe, pd *pipeData, store desync.Store) (err error, diff string)
 				continue
 			}
 			if hung || rs == nil {
-				return errHang, "" // the goroutine cannot be stopped; it is left behind
+				buf := make([]byte, 1<<16)
+				buf = buf[:runtime.Stack(buf, true)]
+				return errHang, string(buf) // the goroutine cannot be stopped; it is left behind
 			}
 			// IndexPos.Read spins while the current chunk is used up and is not the last of
 			// the index: end the index after the victim so that the loop exits and the
@@ -570,7 +573,7 @@ func runPipeline(c Case) (o hx.Outcome) {
 	case err == errPanic:
 		o.Fail("C03:"+p.Consumer+":panic", "the consumer panicked: %s — %s", clip(diff), where)
 	case err == errHang:
-		o.Fail("C03:"+p.Consumer+":hang", "the consumer spun for %s of processor time without returning — %s", spinBudget, where)
+		o.Fail("C03:"+p.Consumer+":hang", "the consumer spun for %s of processor time without returning — %s\n%s", spinBudget, where, diff)
 	case err != nil:
 		o.Class("result:error")
 	case diff != "":
